@@ -78,7 +78,7 @@ func (cs *c19Case) UnmarshalJSON(b []byte) error {
 func init() {
 	engine.Register(&engine.Check{
 		ID: "C19", Level: "model_checking",
-		Rule:   "decoder as a state machine: DFS over all line sequences of depth <=3 (quick; <=4 after the plain 'A record first' opening) / <=4 (thorough) after each of 6 file openings (no A record, A first, noise then A, XOFF/BOM before A, ...), alphabet generated RELATIVE TO THE CURRENT STATE of a Go reference model of the record rules: H DTE {valid, short, non-digit, DATE: form, day/month edges, invalid day/month} and other H records, I records {contiguous LAD/LOD/TDS/other extension of width 1-3, two extensions, non-contiguous, stop<start, count larger than supplied, negative count, truncated, non-digit}, B records {valid at the current length, earlier time of day, one short, over-long, 60000 milli-minutes, 90/180 degrees, bad hemisphere, negative altitude}, blank and other records; after every sequence igc.Read must have returned (no panic) a five-dimensional track of whole fixes and nil or a renderable igc.Errors; for streams of an A record, valid date headers and valid plain B records (what the encoder writes) the decoded fixes must equal the model's - what a decoder makes of malformed records, extension tables and other headers is not prescribed by the property and not compared; plus every truncation and every single-column substitution (6 characters) of the B record in each of 6 extension states; the reader-split sweep; encoder round trip for every combination of 7 longitudes x 5 latitudes x 6 altitudes, 1..3 fixes with time deltas {0,1,59,86399,86400,86401 s, 28,31,365,366,730 days} from 12 boundary instants, EVERY calendar day 1970-01-01..2069-12-31 with fixes at 00:00:00, 23:59:59 and across midnight, every leap day reached from five kinds of earlier days (previous year, 28 February, ...), 31st days reached from 30-day months. states = distinct model states reached Also: every whole degree of latitude/longitude approached from both sides at distances around 1/60000 and 1/120000 degree. Round 7: all tracks again with the process's local time zone at +5:45 and -9:30; every truncation, single-byte deletion, substitution and insertion (12-byte menu) of 8 header and extension-table lines. Round 8: tracks through an Encoder that has written before (same day / day before); lines of 65535, 65536, 70000 and 2^20 bytes at four positions. Round 9: extension tables of every width 1..85 for five codes, alone and behind another extension, each with three fixes.",
+		Rule:   "decoder as a state machine: DFS over all line sequences of depth <=3 (quick; <=4 after the plain 'A record first' opening) / <=4 (thorough) after each of 6 file openings (no A record, A first, noise then A, XOFF/BOM before A, ...), alphabet generated RELATIVE TO THE CURRENT STATE of a Go reference model of the record rules: H DTE {valid, short, non-digit, DATE: form, day/month edges, invalid day/month} and other H records, I records {contiguous LAD/LOD/TDS/other extension of width 1-3, two extensions, non-contiguous, stop<start, count larger than supplied, negative count, truncated, non-digit}, B records {valid at the current length, earlier time of day, one short, over-long, 60000 milli-minutes, 90/180 degrees, bad hemisphere, negative altitude}, blank and other records; after every sequence igc.Read must have returned (no panic) a five-dimensional track of whole fixes and nil or a renderable igc.Errors; for streams of an A record, valid date headers and valid plain B records (what the encoder writes) the decoded fixes must equal the model's - what a decoder makes of malformed records, extension tables and other headers is not prescribed by the property and not compared; plus every truncation and every single-column substitution (6 characters) of the B record in each of 6 extension states; the reader-split sweep; encoder round trip for every combination of 7 longitudes x 5 latitudes x 6 altitudes, 1..3 fixes with time deltas {0,1,59,86399,86400,86401 s, 28,31,365,366,730 days} from 12 boundary instants, EVERY calendar day 1970-01-01..2069-12-31 with fixes at 00:00:00, 23:59:59 and across midnight, every leap day reached from five kinds of earlier days (previous year, 28 February, ...), 31st days reached from 30-day months. states = distinct model states reached Also: every whole degree of latitude/longitude approached from both sides at distances around 1/60000 and 1/120000 degree. Round 7: all tracks again with the process's local time zone at +5:45 and -9:30; every truncation, single-byte deletion, substitution and insertion (12-byte menu) of 8 header and extension-table lines. Round 8: tracks through an Encoder that has written before (same day / day before); lines of 65535, 65536, 70000 and 2^20 bytes at four positions. Round 9: extension tables of every width 1..85 for five codes, alone and behind another extension, each with three fixes. Round 12: every contiguous run of >=2 columns of a fix filled with one repeated byte, in six extension states.",
 		Run:    c19Run,
 		Replay: func(c *engine.Ctx, kind string, raw json.RawMessage) { c19Exec(c, decodeCase[c19Case](raw), nil) },
 		Assumptions: []string{
@@ -396,6 +396,20 @@ func c19Run(c *engine.Ctx) {
 				b[col] = ch
 				c19Exec(c, c19Case{Mode: "lines", Lines: append(append([]string{}, pre...), string(b), after)}, note)
 				c.Count("b_mutations", 1)
+			}
+		}
+		// every contiguous run of columns filled with one repeated byte (a blank, padded or dashed
+		// field, two neighbouring fields at once), the record at its exact length
+		for a := 1; a < len(valid); a++ {
+			for e := a + 2; e <= len(valid); e++ {
+				for _, ch := range []byte{' ', '-', 'x', '0', '9'} {
+					b := []byte(valid)
+					for k := a; k < e; k++ {
+						b[k] = ch
+					}
+					c19Exec(c, c19Case{Mode: "lines", Lines: append(append([]string{}, pre...), string(b), after)}, note)
+					c.Count("b_run_mutations", 1)
+				}
 			}
 		}
 	})
